@@ -215,3 +215,85 @@ class DropNa1D(Contract):
 
     def canaries(self, S, case, env, result):
         yield "everything-dropped", S.n(result.axes[0].values) == 0
+
+
+class DropNaND(Contract):
+    """dropna(axis) on an array of two or more dimensions (default minvalid): the function makes exactly one call
+    compress_axis(mask, axis=d) on the operand (recorded by the harness; what it returns is CompressAxis' contract) and returns
+    its result, where mask is a boolean vector over the labels of d with  mask[i]  <=>  the slice at label i contains no NaN
+    -- over ALL other coordinates, whatever order the dimensions are stored in (the other dimensions are flattened first:
+    Flatten's contract, C11).  Hence exactly the labels whose slice is free of NaN are kept, in their original order, each
+    slice with its label.  [C17]"""
+    target = "dimarray.core.missingvalues:dropna"
+    props = ("C17", "C15")
+    inlined = ("_isnan", "DimArray.__array_wrap__", "flatten (own contract: Flatten)", "sum over the grouped axis (Reduce)", "DimArray._cmp",
+               "compress_axis (own contract: CompressAxis; its call and result are recorded)")
+
+    def cases(self, tier):
+        for rank in (2, 3):
+            for d in range(rank):
+                if rank == 3 and tier == "quick" and d != 1:
+                    continue
+                for by in ("name", "position"):
+                    yield {"name": "r%d-axis%d-%s" % (rank, d, by), "rank": rank, "d": d, "by": by}
+
+    def bound_lengths(self, case):
+        return ["lab%d.n" % d for d in range(case["rank"])]
+
+    def setup(self, S, case):
+        env = _setup(S, case["rank"])
+        env["calls"] = []
+        return env
+
+    def call(self, fn, env):
+        c, arr = env["case"], env["arr"]
+        cls = type(arr)
+        orig = cls.compress_axis
+
+        def recording(self_, condition, axis=None, **kw):
+            r = orig(self_, condition, axis=axis, **kw)
+            if self_ is arr:
+                env["calls"].append((condition, axis, kw, r))
+            return r
+        cls.compress_axis = recording
+        try:
+            return arr.dropna(axis="x%d" % c["d"] if c["by"] == "name" else c["d"])
+        finally:
+            cls.compress_axis = orig
+
+    def post(self, S, case, env, result):
+        rank, d, labels, old = case["rank"], case["d"], env["labels"], env["old"]
+        calls = env["calls"]
+        ok = len(calls) == 1 and calls[0][1] == d and not calls[0][2]
+        yield "one-call-compress_axis-along-that-axis", ok
+        if not ok:
+            return
+        mask = calls[0][0]
+        mv = mask.values if S.is_dimarray(mask) else mask
+        n = S.n(labels[d])
+        yield "result-is-that-calls-result", result is calls[0][3]
+        yield "mask-is-a-boolean-vector-over-the-labels", S.land(len(S.shape(mv)) == 1, S.n(mv) == n, S.kind(mv) == "b")
+        others = [e for e in range(rank) if e != d]
+        oshape = [S.n(labels[e]) for e in others]
+
+        def slice_free_of_nan(i):
+            def cellok(*j):
+                idx = [None] * rank
+                idx[d] = i
+                for e, v in zip(others, j):
+                    idx[e] = v
+                # (naming the coordinate's row-major position among the flattened dimensions puts the term in front of the
+                # solver that the reshape axioms are keyed on; the conjunct itself is a library fact)
+                g = S.rowmajor(list(j), oshape)
+                return S.land(g >= 0, S.lnot(S.isnan(S.at(old, *idx))))
+            return S.forall_nd(oshape, cellok)
+        yield "kept-labels-have-no-nan-in-their-slice", S.forall(0, n, lambda i: S.implies(S.at(mv, i), lambda: slice_free_of_nan(i)))
+
+        def dropped_has_nan(i):
+            # (stated contrapositively so that no existential is needed: a slice free of NaN is kept)
+            return S.implies(slice_free_of_nan(i), lambda: S.at(mv, i))
+        yield "labels-whose-slice-is-free-of-nan-are-kept", S.forall(0, n, dropped_has_nan)
+        yield "operand-untouched", _untouched(S, env, rank)
+
+    def canaries(self, S, case, env, result):
+        yield "everything-dropped", S.n(result.axes[case["d"]].values) == 0
